@@ -124,6 +124,7 @@ where
         };
 
     let mut body_string = String::new();
+    let mut utf16_pending: Option<u8> = None;
     while let Some(next) = response.frame().await {
         let frame = match next {
             Ok(f) => f,
@@ -140,8 +141,16 @@ where
                     // Convert Bytes to Vec<u8>
                     let byte_vec: Vec<u8> = chunk.to_vec();
                     // Convert Vec<u8> to Vec<u16>
+                    // a frame may end in the middle of a code unit: carry the odd byte over
+                    let mut byte_vec = byte_vec;
+                    if let Some(b) = utf16_pending.take() {
+                        byte_vec.insert(0, b);
+                    }
+                    if byte_vec.len() % 2 == 1 {
+                        utf16_pending = byte_vec.pop();
+                    }
                     let u16_vec: Vec<u16> = byte_vec
-                        .chunks(2)
+                        .chunks_exact(2)
                         .map(|chunk| u16::from_le_bytes([chunk[0], chunk[1]]))
                         .collect();
 
